@@ -9,8 +9,8 @@ COMMON_NOTE = ("Trusted: Coq 8.16.1 kernel incl. vm_compute (no native_compute, 
 LEVELS = {
     "C01": {
         "technique": "Coq theorem on the per-message pipeline (advance_send) under codec/compression round-trip laws + differential runs of reader/respflow suites with independently decoded message identities",
-        "level_text": "Proved in Coq for every message, codec pair and compression pair: what the backend decodes from the re-encoded bytes is the message the client encoded (C01_reencoded_request_is_faithful, premises: the two library round-trip laws), same-codec payloads are relayed verbatim or only re-compressed, a pipeline failure is an error and never a changed message, and messages are cut exactly at the announced boundaries (number and order preserved). The response direction has the same pipeline shape and is decided by the correspondence: every run feeds 2700+ generated streams (all wire-form pairs, 0-4 messages, compression on/off/mixed, both directions) through the real transcoder and compares the sequence of messages, decoded by an independent library call, with the model and with what was sent.",
-        "level_note": COMMON_NOTE + "Oracles: Codec.Marshal/Unmarshal, gzip, protojson (field-for-field content is theirs; tables come from independent library calls). The response pipeline is covered by correspondence, not by its own theorem.",
+        "level_text": "Proved in Coq for every message, codec pair and compression pair: what the backend decodes from the re-encoded bytes is the message the client encoded (C01_reencoded_request_is_faithful, premises: the two library round-trip laws), same-codec payloads are relayed verbatim or only re-compressed, a pipeline failure is an error and never a changed message, and messages are cut exactly at the announced boundaries (number and order preserved). The response direction (advance_resp) has the same three theorems (C01_reencoded_response_is_faithful, C01_relayed_response_is_verbatim, C01_response_failure_is_an_error). Every run feeds 2700+ generated streams (all wire-form pairs, 0-4 messages, compression on/off/mixed, both directions) through the real transcoder and compares the sequence of messages, decoded by an independent library call, with the model and with what was sent.",
+        "level_note": COMMON_NOTE + "Oracles: Codec.Marshal/Unmarshal, gzip, protojson (field-for-field content is theirs; tables come from independent library calls). ",
         "modelled": "message.advanceToStage, transformingReader/Writer per-message steps; codecs and compressors are oracles",
     },
     "C02": {
@@ -57,7 +57,7 @@ LEVELS = {
     },
     "C09": {
         "technique": "Coq characterisation of envelope reading by the bytes present (all 256 flag bytes per protocol by lifted finite sweep) + differential reader/respflow suites with cuts at every class of offset",
-        "level_text": "Proved for every byte stream: a message is delivered only when a legal envelope is present in full and all announced bytes follow; a stream ending inside an envelope or inside a message yields UnexpectedEOF (never a clean end), illegal flag bytes and lying lengths are errors, and the transforming reader hands exactly that error to the backend. Response direction by correspondence: cuts at random offsets, frame boundaries, inside the prefix and exactly five bytes short, corrupt compression and garbage must never surface as a successful terminal (2700+ cases per run).",
+        "level_text": "Proved for every byte stream: a message is delivered only when a legal envelope is present in full and all announced bytes follow; a stream ending inside an envelope or inside a message yields UnexpectedEOF (never a clean end), illegal flag bytes and lying lengths are errors, and the transforming reader hands exactly that error to the backend. Response direction: a handler that returns while the backend's output stops inside an envelope prefix, a message, a trailer frame or short of a declared Content-Length always yields an error outcome on the client's connection, for every script and every client protocol (C09_truncated_response_is_an_error, with C09_reported_error_is_visible and C09_unary_head_waits_for_the_outcome). The correspondence adds: cuts at random offsets, frame boundaries, inside the prefix and exactly five bytes short, corrupt compression and garbage must never surface as a successful terminal (2700+ cases per run).",
         "level_note": COMMON_NOTE + "A cut exactly at a frame boundary of a stream that is only relayed is not detectable by the transcoder and is not demanded.",
         "modelled": "readRequestMessage, envelope decoders, transformingReader error path, transformingWriter/envelopingWriter close paths",
     },
